@@ -628,9 +628,10 @@ def check_C02(ctx):
 def check_C10(ctx):
     return run_message_property(ctx, dict(
         theorems=["C10_known_untouched", "C10_retag", "C10_skip_varint", "C10_unknown_token", "C10_unmarshal_is_reference_decoder"],
-        suites=lambda c: [("decv", ["decv", c.seed + 7, _n(c, 6000, 60000)]), ("decb", ["decb", c.seed + 7, _n(c, 4000, 30000)])],
+        suites=lambda c: [("decv", ["decv", c.seed + 7, _n(c, 6000, 60000)]), ("decb", ["decb", c.seed + 7, _n(c, 4000, 30000)]), ("deep", ["deep", c.seed])],
         prop={"dec": lambda r: r["ist"] != "PANIC" and (r["ist"] != "ok" or r["flags"].get("wf") == "1") and
-              (r["tag"] != "valid" or (r["ist"] == "ok" and r["flags"].get("c02") == "ok"))},
+              (r["tag"] != "valid" or (r["ist"] == "ok" and r["flags"].get("c02") == "ok")) and
+              (r["flags"].get("wf") != "1" or r["ost"] != "ok" or r["ist"] == "ok")},   # well-formed and accepted by the reference (e.g. 10 001 nested unknown groups): accepted
         tie={"dec": tie_dec_val}, spec={"dec": spec_dec}, nontrivial=nontrivial_any,
         rule=DEC_RULE + "; unknown fields/groups injected at every level (also into capturing messages: captured bytes compared with the reference's unknown fields, re-tagged); malformed stream must give an error, never a crash"))
 
@@ -649,7 +650,7 @@ def check_C04(ctx):
 def check_C05(ctx):
     return run_message_property(ctx, dict(
         theorems=["C05_invalid_number", "C05_truncated_tag", "C05_wrong_wire", "C05_sticky_next", "C05_sticky_pop", "C05_skip_is_one_value", "C05_accepts_exactly_wellformed"],
-        suites=lambda c: [("decb", ["decb", c.seed + 3, _n(c, 10000, 100000)]), ("decv", ["decv", c.seed + 3, _n(c, 2500, 20000)])],
+        suites=lambda c: [("decb", ["decb", c.seed + 3, _n(c, 10000, 100000)]), ("decv", ["decv", c.seed + 3, _n(c, 2500, 20000)]), ("deep", ["deep", c.seed])],
         prop={"dec": lambda r: r["ist"] != "PANIC" and (r["ist"] == "ok") == (r["flags"].get("wf") == "1")},
         tie={"dec": tie_dec_ok}, spec={"dec": spec_dec}, nontrivial=nontrivial_any,
         rule=DEC_RULE + "; oracle: independent well-formedness predicate on protobuf-go's protowire; projection: err == nil"))
